@@ -110,26 +110,57 @@ impl RecvLinkS {
         ensures r is Ok ==> final(self).link_disposed@ == old(self).link_disposed@.push((d, settled, state)),
     { unimplemented!() }
 }
-pub struct RecvInner { pub ctl: SessionCtl, pub disposed: Ghost<Seq<(DeliveryInfo, Option<bool>, DeliveryState)>>, pub link: RecvLinkS, pub outgoing: OutTx }
+pub struct RecvInner { pub ctl: SessionCtl, pub disposed: Ghost<Seq<(DeliveryInfo, Option<bool>, DeliveryState)>>, pub link: RecvLinkS, pub outgoing: OutTx, pub closes: Ghost<Seq<Option<AmqpError>>>, pub incoming: IncomingS }
+/// the endpoint's queue of frames from the session: `close()` stops the session from adding to it; what is in it can still be received
+pub struct IncomingS { pub closed: Ghost<bool>, pub pending: Ghost<Seq<DeliveryS>> }
+impl IncomingS { #[verifier::external_body] pub fn close(&mut self) ensures final(self).closed@, final(self).pending == old(self).pending { unimplemented!() } }
 impl RecvInner {
     #[verifier::external_body]
     pub fn session_control(&mut self) -> (r: &mut SessionCtl)
-        ensures *r == old(self).ctl, final(self).ctl == *final(r), final(self).disposed == old(self).disposed,
+        ensures *r == old(self).ctl, final(self).ctl == *final(r), final(self).disposed == old(self).disposed, final(self).closes == old(self).closes, final(self).incoming == old(self).incoming,
     { unimplemented!() }
     #[verifier::external_body]
     pub fn dispose(&mut self, d: DeliveryInfo, settled: Option<bool>, state: DeliveryState) -> (r: Result<(), IllegalLinkStateError>)
         ensures
-            final(self).ctl == old(self).ctl,
+            final(self).ctl == old(self).ctl, final(self).closes == old(self).closes, final(self).incoming == old(self).incoming,
             r is Ok ==> final(self).disposed@ == old(self).disposed@.push((d, settled, state)),
             r is Err ==> final(self).disposed@ == old(self).disposed@,
     { unimplemented!() }
     #[verifier::external_body]
     pub fn close_with_error(&mut self, e: Option<AmqpError>) -> (r: Result<(), IllegalLinkStateError>)
-        ensures final(self).ctl == old(self).ctl, final(self).disposed == old(self).disposed,
+        ensures final(self).ctl == old(self).ctl, final(self).disposed == old(self).disposed, final(self).closes@ == old(self).closes@.push(e), final(self).incoming == old(self).incoming,
+    { unimplemented!() }
+    /// the next control message, or the reason why there will be none. `pending`: the complete deliveries the queue still holds. Once the queue has been closed nothing is added to it,
+    /// and recv() hands out what it holds, in order, before it reports an error (tokio mpsc: a closed channel is drained first)
+    #[verifier::external_body]
+    pub fn recv(&mut self) -> (r: Result<DeliveryS, RecvError>)
+        ensures final(self).ctl == old(self).ctl, final(self).disposed == old(self).disposed, final(self).closes == old(self).closes, final(self).incoming.closed == old(self).incoming.closed,
+            old(self).incoming.closed@ && old(self).incoming.pending@.len() > 0 ==> r == Ok::<DeliveryS, RecvError>(old(self).incoming.pending@[0]) && final(self).incoming.pending@ == old(self).incoming.pending@.skip(1),
+            old(self).incoming.closed@ && old(self).incoming.pending@.len() == 0 ==> r is Err && final(self).incoming.pending == old(self).incoming.pending,
     { unimplemented!() }
 }
 #[verifier::external_body]
 pub fn illegal_state_error() -> (r: AmqpError) { unimplemented!() }
+/// `res.unwrap_or_else(|_err| {})` on a Result<(), E> (the closure only logs): the unit either way
+pub trait UnwrapOrUnit { fn unwrap_or_unit(self); }
+impl<E> UnwrapOrUnit for Result<(), E> { fn unwrap_or_unit(self) { match self { Ok(v) => v, Err(_e) => () } } }
+#[verifier::external_body]
+pub struct StopReasonS { _p: u8 }
+#[verifier::external_body]
+pub struct DecodeErrS { _p: u8 }
+//@@ type file=fe2o3-amqp/src/link/error.rs kind=enum name=LinkStateError
+//@@ subst `SessionStopReason` => `StopReasonS` rule=R11
+//@@ subst `definitions::Error` => `AmqpError` rule=R11
+//@@ end
+//@@ type file=fe2o3-amqp/src/link/error.rs kind=enum name=RecvError
+//@@ subst `MessageDecodeError` => `DecodeErrS` rule=R11
+//@@ end
+/// the condition an error the coordinator closes its link with is built from (definitions::Error::new(condition, ..)): opaque apart from the condition
+pub enum Cond { IllegalState, TransferLimitExceeded, NotAllowed }
+pub uninterp spec fn err_of(c: Cond) -> AmqpError;
+#[verifier::external_body]
+pub fn mk_error(c: Cond) -> (r: AmqpError) ensures r == err_of(c) { unimplemented!() }
+
 pub fn outcome_into(o: SuccessfulOutcome) -> (r: DeliveryState)
     ensures r == (match o { SuccessfulOutcome::Declared(d) => DeliveryState::Declared(d), SuccessfulOutcome::Accepted(a) => DeliveryState::Accepted(a) }),
 { match o { SuccessfulOutcome::Declared(d) => DeliveryState::Declared(d), SuccessfulOutcome::Accepted(a) => DeliveryState::Accepted(a) } }
@@ -151,6 +182,7 @@ impl TxnCoordinator {
 //@@ subst `super::session::allocate_transaction_id(self.inner.session_control())` => `session::allocate_transaction_id(self.inner.session_control())` rule=R11
 //@@ spec
     ensures
+        final(self).inner.incoming == old(self).inner.incoming,       // (the coordinator's handlers do not touch the queue from the session)
         final(self).inner.disposed == old(self).inner.disposed,
         declare.global_id is Some ==> r is Err && final(self).txn_ids@ == old(self).txn_ids@ && final(self).inner.ctl.reqs@ == old(self).inner.ctl.reqs@,   // [C18.coordinator.global-id-refused] a declare with a global id is refused, nothing is allocated
         declare.global_id is None ==> final(self).inner.ctl.reqs@ == old(self).inner.ctl.reqs@.push(SessReq::Allocate),
@@ -164,6 +196,7 @@ impl TxnCoordinator {
 //@@ subst `.map_err(Into::into)` => `.map_err(|e: DischargeError| -> (o: CoordinatorError) ensures o == e.conv() { e.err_into() })` rule=R17 unless `\.map_err\(`
 //@@ spec
     ensures
+        final(self).inner.incoming == old(self).inner.incoming,       // (the coordinator's handlers do not touch the queue from the session)
         final(self).inner.disposed == old(self).inner.disposed,
         !old(self).txn_ids@.contains(discharge.txn_id) ==> r == Err::<Accepted, CoordinatorError>(CoordinatorError::TransactionError(TransactionError::UnknownId))
             && final(self).inner.ctl.reqs@ == old(self).inner.ctl.reqs@ && final(self).txn_ids@ == old(self).txn_ids@,                                       // [C18.coordinator.unknown-id-refused] discharging an id that was never declared on this link, or was already discharged, is refused with the transaction error and nothing reaches the transaction table
@@ -176,6 +209,7 @@ impl TxnCoordinator {
 //@@ subst `definitions::Error::new(error, description, None)` => `txn_rejection(error)` rule=R11
 //@@ spec
     ensures
+        final(self).inner.incoming == old(self).inner.incoming,       // (the coordinator's handlers do not touch the queue from the session)
         final(self).txn_ids == old(self).txn_ids && final(self).inner.ctl == old(self).inner.ctl,
         r is Ok ==> final(self).inner.disposed@ == old(self).inner.disposed@.push((delivery_info, Some(true), DeliveryState::Rejected(Rejected { error: Some(TxnRejection { condition: error }) }))),   // [C18.coordinator.rejection] [C09.coordinator.disposal-through-the-endpoint] a refused control message is disposed of through the receiver ENDPOINT (which counts it and re-issues the control link's credit), not past it; a refused control message is settled with a rejected outcome carrying the transaction error
         r is Err ==> final(self).inner.disposed@ == old(self).inner.disposed@,
@@ -188,6 +222,7 @@ impl TxnCoordinator {
 //@@ subst `definitions::Error::new(AmqpError::IllegalState, None, None)` => `illegal_state_error()` rule=R11
 //@@ spec
     ensures
+        final(self).inner.incoming == old(self).inner.incoming,       // (the coordinator's handlers do not touch the queue from the session)
         final(self).txn_ids == old(self).txn_ids && final(self).inner.ctl == old(self).inner.ctl,
         result is Ok && r is Continue ==> final(self).inner.disposed@ == old(self).inner.disposed@.push((delivery_info, Some(true), (match result->Ok_0 {
             SuccessfulOutcome::Declared(d) => DeliveryState::Declared(d), SuccessfulOutcome::Accepted(a) => DeliveryState::Accepted(a) }))),                 // [C18.coordinator.outcome-reported] the controller is told the outcome: declared with the new id, or accepted
@@ -205,6 +240,7 @@ impl TxnCoordinator {
 //@@ subst `let delivery_info: DeliveryInfo = delivery.into();` => `let delivery_info: DeliveryInfo = delivery.into_info();` rule=R16
 //@@ spec
     ensures
+        final(self).inner.incoming == old(self).inner.incoming,       // (the coordinator's handlers do not touch the queue from the session)
         final(self).inner.disposed@.len() <= old(self).inner.disposed@.len() + 1,
         final(self).inner.disposed@.len() == old(self).inner.disposed@.len() + 1 ==> final(self).inner.disposed@.last().0 == delivery.info,       // [C18.coordinator.answer-names-the-request] the outcome the coordinator reports is reported for THIS control message (its delivery), not for another
         (match delivery.body {
@@ -213,6 +249,42 @@ impl TxnCoordinator {
                 ==> final(self).inner.ctl.reqs@ == old(self).inner.ctl.reqs@.push(if discharge.fail == Some(true) { SessReq::Rollback(discharge.txn_id) } else { SessReq::Commit(discharge.txn_id) })
                     && final(self).txn_ids@ == old(self).txn_ids@.remove(discharge.txn_id),       // [C18.coordinator.discharge-dispatched] a discharge commits or rolls back THAT transaction, once
         }),
+//@@ end
+
+//@@ fn file=fe2o3-amqp/src/transaction/coordinator.rs impl=`impl TxnCoordinator` name=on_recv_error
+//@@ orsplit
+//@@ blockarms
+//@@ subst `definitions::Error::new(AmqpError::IllegalState, None, None)` => `mk_error(Cond::IllegalState)` rule=R11
+//@@ subst `definitions::Error::new(LinkError::TransferLimitExceeded, None, None)` => `mk_error(Cond::TransferLimitExceeded)` rule=R11
+//@@ subst `definitions::Error::new(AmqpError::NotAllowed, format!("{:?}", error), None)` => `mk_error(Cond::NotAllowed)` rule=R11
+//@@ subst `crate::link::LinkStateError::` => `LinkStateError::` rule=R6
+//@@ subst `.unwrap_or_else(|_err| { })` => `.unwrap_or_unit()` rule=R19
+//@@ spec
+    ensures
+        r is Stop,       // [C18.coordinator.receive-error-ends-the-coordinator] whatever the control link's receive reports -- the peer detached or closed it, the session stopped, a malformed control message -- the coordinator task ENDS (its Drop then aborts every transaction that was declared over the link and not discharged): it never goes on polling a link that is gone
+        final(self).inner.disposed == old(self).inner.disposed, final(self).inner.ctl == old(self).inner.ctl, final(self).txn_ids == old(self).txn_ids, final(self).inner.incoming == old(self).inner.incoming,
+        final(self).inner.closes@.len() <= old(self).inner.closes@.len() + 1,       // [C13.coordinator.at-most-one-detach] at most one detach is written for the control link's attach
+        (error is LinkStateError && error->LinkStateError_0 is SessionStopped) ==> final(self).inner.closes == old(self).inner.closes,       // (the session is gone: there is nobody to write to)
+        (error is LinkStateError && (error->LinkStateError_0 is RemoteDetached || error->LinkStateError_0 is RemoteClosed || error->LinkStateError_0 is RemoteDetachedWithError || error->LinkStateError_0 is RemoteClosedWithError))
+            ==> final(self).inner.closes@ == old(self).inner.closes@.push(None::<AmqpError>),       // [C13.coordinator.peer-detach-answered] the controller's detach of the control link is answered, without an error of the coordinator's own
+        (error is TransferLimitExceeded) ==> final(self).inner.closes@ == old(self).inner.closes@.push(Some(err_of(Cond::TransferLimitExceeded))),       // [C15.coordinator.malformed-control-message-closes-the-link-with-the-reason] a control message the coordinator cannot accept closes the control link with an error condition that says why -- the session and the connection stay up
+        (error is DeliveryIdIsNone || error is DeliveryTagIsNone || error is MessageDecode || error is IllegalRcvSettleModeInTransfer || error is InconsistentFieldInMultiFrameDelivery || error is TransactionalAcquisitionIsNotImeplemented)
+            ==> final(self).inner.closes@ == old(self).inner.closes@.push(Some(err_of(Cond::NotAllowed))),
+//@@ end
+
+//@@ fn file=fe2o3-amqp/src/transaction/coordinator.rs impl=`impl TxnCoordinator` name=event_loop as=event_loop_arm_recv
+//@@ selectarm `delivery = self.inner.recv()`
+//@@ addparam delivery: Result<DeliveryS, RecvError>
+//@@ ret (Running, bool)
+//@@ subst `(mut self)` => `(&mut self)` rule=R32
+//@@ loop 0 optional
+                            invariant self.inner.incoming.closed@,
+                            ensures self.inner.incoming.pending@.len() == 0,
+                            decreases self.inner.incoming.pending@.len(),
+//@@ spec
+    ensures
+        delivery is Err ==> r.0 is Stop,       // [C18.coordinator.receive-error-ends-the-coordinator]
+        delivery is Err ==> final(self).inner.incoming.closed@ && final(self).inner.incoming.pending@.len() == 0,       // [C18.coordinator.queued-control-messages-handled-before-the-link-goes] when the control link reports that it is going away, the queue from the session is closed and EVERY control message still in it -- a discharge that arrived just before the detach -- is taken out and handled before the detach is answered and the coordinator ends: a commit the controller has sent is not lost because its detach followed closely
 //@@ end
 
 //@@ fn file=fe2o3-amqp/src/transaction/coordinator.rs impl=`impl Drop for TxnCoordinator` name=drop
